@@ -246,35 +246,52 @@ def run(tier, seed):
     # pinned witness of F20: one sender, two fuzzer-side recipients, a unit for G arrives before F's message is complete
     _, wit = _runs(("two-recipients", TWO_RECIPIENTS, [([2, 1, 1, 1, 2], None), ([1, 2, 1, 1, 2], None)]))
     results["two-recipients"] = wit
-    path = os.path.join(subdir("c20"), "runs.ndjson")
     meta = {}
     tid = 0
-    nev = 0
     protos = dict(PROTOCOLS, **{"two-recipients": TWO_RECIPIENTS})
-    with open(path, "w") as fh:
-        for name, out in results.items():
-            p = protos[name]
-            for sched, fault, res in out:
-                if "harness_error" in res:
-                    raise common.Machinery("run failed in the harness: %s" % res["harness_error"])
-                tid += 1
-                meta[tid] = (name, sched, fault, res)
-                fh.write(json.dumps({"ev": "proto", "tid": tid, "inter": p["inter"], "ext": [q for q, m in p["parties"].items() if m == "EXTERNAL"],
-                                     "lang": {t: [[ord(c) for c in x] for x in xs] for t, xs in p["lang"].items()}}) + "\n")
-                for e in res["events"]:
-                    e["tid"] = tid
-                    fh.write(json.dumps(e) + "\n")
-                fh.write(json.dumps({"ev": "end", "tid": tid, "kind": res["kind"], "hist": res["hist"], "peers_valid": res["peers_valid"],
-                                     "all_delivered": res["all_delivered"]}) + "\n")
-                nev += 2 + len(res["events"])
-    r = run_tlc("Trace_Run", "Trace_Run", workers=1, env={"TRACE_FILE": path}, timeout=1800, heap="8g")
-    rep.tlc(r, "Trace_Run")
-    cl = [l for l in r.out.splitlines() if l.startswith('<<"CONSUMED"')]
-    if not cl or ("%d," % nev) not in cl[0]:
-        raise common.Machinery("Trace_Run did not consume the trace: %s" % cl)
-    bad = r.printed("BAD")
+    # one event is one state of the trace specification and TLC follows at most 65535 states of a behaviour: the runs are
+    # written to several files of at most 30000 events, validated side by side
+    files, cur, cur_n = [], [], 0
+    for name, out in results.items():
+        p = protos[name]
+        for sched, fault, res in out:
+            if "harness_error" in res:
+                raise common.Machinery("run failed in the harness: %s" % res["harness_error"])
+            tid += 1
+            meta[tid] = (name, sched, fault, res)
+            lines = [json.dumps({"ev": "proto", "tid": tid, "inter": p["inter"], "ext": [q for q, m in p["parties"].items() if m == "EXTERNAL"],
+                                 "lang": {t: [[ord(c) for c in x] for x in xs] for t, xs in p["lang"].items()}})]
+            for e in res["events"]:
+                e["tid"] = tid
+                lines.append(json.dumps(e))
+            lines.append(json.dumps({"ev": "end", "tid": tid, "kind": res["kind"], "hist": res["hist"], "peers_valid": res["peers_valid"],
+                                     "all_delivered": res["all_delivered"]}))
+            if cur_n + len(lines) > 30000:
+                files.append((cur, cur_n))
+                cur, cur_n = [], 0
+            cur.extend(lines)
+            cur_n += len(lines)
+    if cur:
+        files.append((cur, cur_n))
+    from concurrent.futures import ThreadPoolExecutor
+
+    def validate(arg):
+        i, (lines, n) = arg
+        path = os.path.join(subdir("c20"), "runs.%d.ndjson" % i)
+        with open(path, "w") as fh:
+            fh.write("\n".join(lines) + "\n")
+        return n, run_tlc("Trace_Run", "Trace_Run", workers=1, env={"TRACE_FILE": path}, timeout=1800, heap="4g")
+    bad_all = []
+    with ThreadPoolExecutor(min(8, len(files))) as ex:
+        for n, r in ex.map(validate, enumerate(files)):
+            rep.tlc(r, "Trace_Run[%d events]" % n)
+            cl = [l for l in r.out.splitlines() if l.startswith('<<"CONSUMED"')]
+            if not cl or ("%d," % n) not in cl[0]:
+                raise common.Machinery("Trace_Run did not consume the trace: %s" % cl)
+            b_ = r.printed("BAD")
+            bad_all.extend(b_[0] if b_ else [])
     seen = set()
-    for b in (bad[0] if bad else []):
+    for b in bad_all:
         name, sched, fault, res = meta[b["tid"]]
         if name == "two-recipients":
             key = "witness:F20:two-recipients"
